@@ -18,7 +18,8 @@ EXPR_RECIPES = [r for r in U.RECIPES if not any(u in ('radian', 'steradian', 'lu
 # ------------------------------------------------------------------------------------------ case generation
 def gen_context(rng):
     """A single-store family with 2-3 clusters of equal dimension + variables over its units."""
-    fam = U.gen_family(rng, n_units=rng.randint(6, 9), n_stores=1, recipes=EXPR_RECIPES, with_base=rng.random() < 0.2)
+    fam = U.gen_family(rng, n_units=rng.randint(6, 9), n_stores=1, recipes=EXPR_RECIPES, with_base=rng.random() < 0.2,
+                       small_scales=True)
     units = []          # unit-exprs available
     for d in fam['defs']:
         units.append([[0, d['name'], '1']])
